@@ -2,7 +2,7 @@
    events.  Statements only; proofs are in SqlInv / SqlAbs / SqlQuery /
    SqlProofs / SqlProofsFixed.  After the repairs of F6 and F7 the full
    statement is proved (C06_query_correct). *)
-From Moc Require Import SqlProofs SqlProofsFixed.
+From Moc Require Import SqlProofs SqlProofsFixed SqlCheckBase SqlCheckProofs.
 From Moc.Gen Require Import GenSql.
 Open Scope Z_scope.
 
@@ -134,6 +134,12 @@ Theorem C06_model_satisfies_oracle :
               query_specb (concat h) fs maxLimit out = true.
 Proof. exact model_satisfies_oracle. Qed.
 Print Assumptions C06_model_satisfies_oracle.
+
+(** the model side of the correspondence run accepts the model's own answer:
+    an implementation that answers as the model shows no model difference *)
+Theorem C06_model_accepts_own_answer : forall s fs ml,
+  model_accepts s fs ml (match query s fs ml with Some q => QOk q | None => QErr end) = true.
+Proof. exact model_accepts_own_answer. Qed.
 
 (** the store as the implementation keeps it (64-bit keys [key64 xx k], tag
     hashes [md5 s]; SqlHashed.v): if [xx] and [md5] do not collide on what the
